@@ -25,9 +25,34 @@ import (
 	"sync"
 	"testing"
 
+	v2metric "github.com/goark/go-cvss/v2/metric"
 	"github.com/goark/go-cvss/v3/metric"
 	"golang.org/x/text/language"
 )
+
+func vrWorkV2(i int) string {
+	vecs := []string{
+		"AV:N/AC:L/Au:N/C:N/I:N/A:C/E:F/RL:OF/RC:C/CDP:H/TD:H/CR:M/IR:M/AR:H",
+		"AV:L/AC:H/Au:M/C:P/I:P/A:N",
+		"AV:A/AC:M/Au:S/C:C/I:N/A:P/E:POC/RL:TF/RC:UR",
+		"AV:N/AC:M/Au:N/C:P/I:C/A:C/CDP:LM/TD:M/CR:H/IR:L/AR:ND",
+	}
+	var sb strings.Builder
+	for k := 0; k < 4; k++ {
+		v := vecs[(i+k)%len(vecs)]
+		em, err := v2metric.NewEnvironmental().Decode(v)
+		fmt.Fprintf(&sb, "%v|%v|", em != nil, err)
+		if em != nil {
+			fmt.Fprintf(&sb, "%v %v %s|", em.Score(), em.Severity(), em.String())
+		}
+		bm, err := v2metric.NewBase().Decode(strings.Join(strings.Split(v, "/")[:6], "/"))
+		fmt.Fprintf(&sb, "%v|%v|", bm != nil, err)
+		if bm != nil {
+			fmt.Fprintf(&sb, "%v %s|", bm.Score(), bm.String())
+		}
+	}
+	return sb.String()
+}
 
 func vrWork(shared *metric.Environmental, i int) string {
 	vecs := []string{
@@ -64,6 +89,7 @@ func vrWork(shared *metric.Environmental, i int) string {
 		_, err3 := rep.ExportWithString("{{.NoSuchField}}")
 		fmt.Fprintf(&sb, "|%v;", err3 != nil)
 	}
+	sb.WriteString(vrWorkV2(i))
 	return sb.String()
 }
 
@@ -174,7 +200,7 @@ func raceReplay(repo string) (string, bool) {
 	runErr := cmd.Run()
 	text := out.String()
 	hit := strings.Contains(text, "WARNING: DATA RACE") || strings.Contains(text, "RACE-DIFF") || strings.Contains(text, "concurrent map")
-	rep := "race replay (go test -race; cold phase: 16 goroutines make the first use of the library at the same moment; then 16 goroutines x 20 rounds: decode into own objects, query a shared decoded object, build and export reports):\n"
+	rep := "race replay (go test -race; cold phase: 16 goroutines make the first use of the library at the same moment; then 16 goroutines x 20 rounds: decode v3 and v2 vectors into own objects, query a shared decoded object, build and export reports):\n"
 	switch {
 	case hit:
 		i := strings.Index(text, "WARNING: DATA RACE")
